@@ -18,7 +18,7 @@ REGISTRY = {
     },
 }
 REGISTRY['C01'] = {
-    'v': ['c01_roamode'],
+    'v': ['c01_roamode', 'c01_aggregate'],
     'k': [],
     'level_text': 'Object-derivation kernels only: the ROA publication-mode switch is the 4-way table of the statement (an empty relevant set never changes strategy, so aggregated ROAs are still withdrawn by the aggregate path). End-to-end relying-party validity, signatures and synchronisation with the publication server are not decided.',
     'level_note': 'is_currently_aggregating (keys().any(closure)) assumed; everything outside the listed kernels unverified.',
@@ -42,12 +42,20 @@ REGISTRY['C09'] = {
     'not_covered': ['Queue internals (closures over a key-value transaction): earliest-first claim order, keeps-the-earlier-time rule', 'crash while a task is running', 'scheduler::queue_start_tasks'],
 }
 REGISTRY['C10'] = {
-    'v': ['c10_current', 'c10_staged', 'c10_content'],
+    'v': ['c10_current', 'c10_staged', 'c10_content', 'c11_snapshot', 'c12_rfc8181'],
     'k': [],
     'level_text': 'Publication-server data-structure contracts on the real text: delta accepted exactly when every URI is in the jail, publishes are new and updates/withdraws match the stated hash (iff, any delta length); applying a delta equals the map-level spec (whole-map equality, so untouched objects are proved untouched); staged-on-staged merge follows the 12-case per-URI table; list content = current + staged. Cross-publisher isolation through HTTP and interleaving with RRDP writes are not decided.',
     'level_note': 'uri::Rsync / Base64 / Hash opaque (is_parent_of, to_hash uninterpreted); HashMap key model; HashMap::get_mut assumed spec; RepositoryManager/HTTP layers unverified (A8).',
     'design_ref': 'DESIGN.md section 5 / C10',
     'not_covered': ['interleaving with RRDP file writes, session reset histories', 'publisher_rsync_base string construction'],
+}
+REGISTRY['C11'] = {
+    'v': ['c11_rrdp', 'c11_snapshot'],
+    'k': [],
+    'level_text': 'In-memory RRDP state only: a session reset restarts at serial 1 without deltas and takes session/snapshot from the reset; truncation by size keeps the longest prefix of the delta list that fits the snapshot size; truncation by age/number keeps a prefix and respects the configured maximum whenever the minimum-retention rules do not apply (the unconditional maximum is a recorded finding, F5). Files on disk, hashes, the rsync directory switch and apply_rrdp_updated (by-value HashMap loop) are not decided.',
+    'level_note': 'DeltaElements/SnapshotData sizes uninterpreted; the clock is an input (is_younger / is_older uninterpreted); VecDeque length < usize::MAX and no usize overflow of the summed delta sizes are preconditions.',
+    'design_ref': 'DESIGN.md section 5 / C11',
+    'not_covered': ['RrdpServer::apply_rrdp_updated (iterates a HashMap by value; a Kani harness over real URIs/Base64/HashMap gave no verdict in 25 min and was dropped)', 'files on disk, hashes, notification switch, rsync tmp/current/old switch', 'apply_rrdp_staged frame (HashMap::entry)'],
 }
 REGISTRY['C12'] = {
     'v': ['c12_rfc6492', 'c12_rfc8181', 'c03_child_revoke'],
@@ -64,6 +72,14 @@ REGISTRY['C13'] = {
     'level_note': 'PermissionSet::has uninterpreted in the V units (its bit algebra is decided by the K group); facade = KrillManager methods as assumed externals; listing handlers filtering inside closures not covered.',
     'design_ref': 'DESIGN.md section 5 / C13',
     'not_covered': ['cas.rs::index_get (CA listing filtered inside a filter_map closure)', 'root.rs::ui / assets (static files from a build artefact)', 'metrics.rs and auth.rs (login) handlers', 'HTTP status mapping; effects of refused calls beyond the facade not being called'],
+}
+REGISTRY['C14'] = {
+    'v': ['c14_objectset', 'c04_objects'],
+    'k': [],
+    'level_text': 'Per-key contracts on the real text: a re-issue raises the revision number by exactly one, builds CRL and manifest from the same revision (numbers and validity windows agree), leaves the payload set unchanged, builds the CRL from the key\'s own (pruned) revocations and the manifest from CRL + exactly the published objects; a class is due iff any of its key sets (current, staging, old) is due and a re-issue covers all of them. Whether the maintenance tasks run and whether windows contain the present (wall clock) is not decided.',
+    'level_note': 'PublishedCrl::build, ManifestBuilder::build_new_mft / with_objects, Revocations::remove_expired are assumed externals (rpki-rs builders, signer); time is an input.',
+    'design_ref': 'DESIGN.md section 5 / C14',
+    'not_covered': ['CaObjects::re_issue (HashMap::values_mut loop: outside engine V; K harness would need real signed objects)', 'renewal of ROAs/ASPAs/BGPsec certificates (create_renewal)', 'validity windows contain the present'],
 }
 REGISTRY['C15'] = {
     'v': ['c15_taproxy'],
